@@ -5,6 +5,7 @@ import (
 	"fmt"
 	"os"
 	"path/filepath"
+	"reflect"
 	"regexp"
 	"sort"
 	"strings"
@@ -212,7 +213,8 @@ func (o *filterOp) run() (out string) {
 		same = 1
 	}
 	cfgSame := 0
-	if fmt.Sprintf("%p", f.GetConfiguration()) != "" && f.GetConfiguration() == o.reg.GetConfiguration() {
+	// (compared structurally: the harness must keep compiling when Configuration gains fields that are not comparable)
+	if reflect.DeepEqual(f.GetConfiguration(), o.reg.GetConfiguration()) {
 		cfgSame = 1
 	}
 	return fmt.Sprintf("ok %s|same=%d|cfg=%d|src-unchanged=%d", regDump(f), same, cfgSame, unchanged)
